@@ -390,6 +390,7 @@ func c04NativeData() map[string]interface{} {
 	return map[string]interface{}{
 		"ip": net.IP{10, 0, 0, 1}, "ip6": net.ParseIP("::1"), "t": t, "pt": &t, "big": big.NewInt(5), "hw": net.HardwareAddr{1, 2, 3}, "dur": time.Second, "url": &url.URL{Scheme: "http", Host: "h"},
 		"long": strings.Repeat("ab", 2048), "long2": strings.Repeat("x", 65536) + "y", "longb": []byte(strings.Repeat("ab", 4096)), "ch": make(chan int, 2), "nilch": (chan string)(nil),
+		"notes": []string{"a", "5", "10.0.0.1"}, "inner": "a", "android": []interface{}{"a", 5}, "isolated": map[string]interface{}{"a": 1}, "emptyish": "",
 		"raw": json.RawMessage(`{"a":1}`), "rat": big.NewRat(1, 2), "mask": net.IPMask{255, 0}, "err": fmt.Errorf("boom"), "ips": []net.IP{{10, 0, 0, 1}}, "ts": []time.Time{t},
 	}
 }
@@ -435,7 +436,7 @@ func c04Run(c *mon.Ctx, idx int) {
 	if idx%40 == 0 {
 		// values of types with methods (TextMarshaler, Stringer, error, ...)
 		d := c04NativeData()
-		keys := []string{"ip", "ip6", "t", "pt", "big", "hw", "dur", "url", "raw", "rat", "mask", "err", "ips", "ts", "long", "long2", "longb", "ch", "nilch", "long", "long2"}
+		keys := []string{"notes", "inner", "android", "isolated", "emptyish", "notes", "ip", "ip6", "t", "pt", "big", "hw", "dur", "url", "raw", "rat", "mask", "err", "ips", "ts", "long", "long2", "longb", "ch", "nilch", "long", "long2"}
 		k := keys[r.Intn(len(keys))]
 		c04Native(c, d, k, []string{`^10\.`, ".", "10.0.0.1", "5", "a", "2024", "", "1000000000", "^$"}[r.Intn(9)], k)
 	}
